@@ -110,6 +110,20 @@ def _check_one(obs, rows, cols, sel_idx, via="array"):
             wells = wells + wells[: max(1, len(wells) // 2)]
             if len(wells) % 2 == 0:
                 wells = np.array(wells).reshape((2, -1))
+        if via == "ids" and len(wells) == 1:
+            # one well given as a bare id (str, or the numpy string taken from Labware.wells): refusing it is fine,
+            # but a selection that is returned has to select that well
+            for bare in (wells[0], np.array(wells)[0], tuple(wells), np.array(wells)):
+                try:
+                    a1 = commands.evo_make_selection_array(rows, cols, bare)
+                except Exception:
+                    obs.cls("bare-id-refused")
+                    continue
+                got1 = sorted(int(c) * rows + int(r) for r, c in zip(*np.nonzero(a1))) if getattr(a1, "shape", None) == (rows, cols) else None
+                if got1 != sorted(sel_idx):
+                    obs.bad("C12/array-content", f"{rows}x{cols}: wells={bare!r} ({type(bare).__name__}) gave an array selecting {got1}, expected {sel_idx}")
+                    return None
+                obs.cls("bare-id")
         arr = commands.evo_make_selection_array(rows, cols, wells)
         if arr.shape != (rows, cols):
             obs.bad("C12/array-shape", f"evo_make_selection_array({rows},{cols}) has shape {arr.shape}")
